@@ -139,17 +139,23 @@ impl Service {
                 )
             }
             rtype = UpdateInstanceType::UpdateValue;
+            // another gRPC connection registers the address and becomes its owner: the record is
+            // its registration, so it carries the values of that registration. The tag only keeps
+            // the stored values (e.g. set from the console) while the owner stays the same
+            let taken_over = instance.from_grpc
+                && !instance.client_id.is_empty()
+                && instance.client_id != old_instance.client_id;
             if let Some(update_tag) = update_tag {
                 if !update_tag.is_none() {
-                    if !update_tag.enabled {
+                    if !update_tag.enabled && !taken_over {
                         old_instance.enabled.clone_into(&mut instance.enabled);
                     } else if old_instance.enabled != instance.enabled {
                         perpetual_changed = true;
                     }
-                    if !update_tag.ephemeral {
+                    if !update_tag.ephemeral && !taken_over {
                         old_instance.ephemeral.clone_into(&mut instance.ephemeral);
                     }
-                    if !update_tag.weight {
+                    if !update_tag.weight && !taken_over {
                         old_instance.weight.clone_into(&mut instance.weight);
                     } else if old_instance.weight != instance.weight {
                         perpetual_changed = true;
